@@ -25,6 +25,10 @@ C19_EncRefuse == J => ((R.op = "enc" /\ ~EncLegal(R)) => R.err)
 \* "the byte size associated with exponent s is 2^(s+4) (1024 for BERT)"
 C19_Size      == J => (R.op = "size" => R.size = Size(R.s))
 \* complete-domain digests
+\* "1024 for BERT, whose blocks are whole multiples of 1024 bounded by the maximum message size": the first block cut from a large
+\* body is Size(s) bytes for s < 7 and (mms \div 1024) * 1024 bytes for BERT
+BufOf(s, mms) == IF s < 7 THEN Size(s) ELSE (mms \div 1024) * 1024
+C19_BertBuffer == J => (R.op = "bertbuf" => R.first = BufOf(R.s, R.mms))
 C19_DecDigest == J => (R.op = "decdig" => (R.d1 = SumDec(R.lo, 0, R.n, P1) /\ R.d2 = SumDec(R.lo, 0, R.n, P2)))
 C19_EncDigest == J => (R.op = "encdig" => (R.d1 = SumEnc(R.s, R.m, R.lo, 0, R.n, P1) /\ R.d2 = SumEnc(R.s, R.m, R.lo, 0, R.n, P2)))
 C19_DecBlock  == J => (R.op = "decblk" => R.errs = R.n)
